@@ -99,7 +99,7 @@ impl Scenario for C13 {
 
 fn scenarios(tier: &str) -> Vec<C13> {
     let mk = |name: &str, a: Vec<Ev>, depth: usize, unsol: bool, buf: u16, retries: Option<usize>| C13 {
-        inner: C03 { name: name.to_string(), alphabet: a, depth, unsol, buf, cto: false, retries },
+        inner: C03 { name: name.to_string(), alphabet: a, depth, unsol, buf, cto: false, retries, overflow_model: false },
     };
     let mut v = vec![
         mk("poll-d4-buf1", alphabet(false), 4, false, 1, Some(0)),
